@@ -254,11 +254,14 @@ impl Terminal {
             Self::Trm(t, k, s, a, u, m, l) => {
                 let mut d = String::new();
                 let delimiter = k.delimiter();
-                a.decorate(&mut d, &format!("{delimiter}{t}{delimiter}"))
-                    .map_err(|e| anyhow!("Decorate error!: {}", e))?;
+                // The lookahead expression belongs to the token expression; attributes like the
+                // clipping marker follow it.
+                let mut token_expression = format!("{delimiter}{t}{delimiter}");
                 if let Some(la) = l {
-                    write!(d, " {}", la.to_par()).map_err(|e| anyhow!(e))?;
+                    write!(token_expression, " {}", la.to_par()).map_err(|e| anyhow!(e))?;
                 }
+                a.decorate(&mut d, &token_expression)
+                    .map_err(|e| anyhow!("Decorate error!: {}", e))?;
                 if let Some(member) = m {
                     if l.is_some() {
                         // Add space between lookahead expression and member
